@@ -304,6 +304,21 @@ class Case:
                 self._dels[i] = (kv.get("user") or self.sess[w[1]]["user"], kv.get("hard") == "1")
         return self._dels
 
+    def obo_me_sids(self, i):
+        """root sessions which have addressed somebody else's `me` or `fnd` (`as=`) up to request i: what such a session receives on `me` may
+        belong to the user it acts for - the rules which read a `me` frame as meant for the session's own user leave those sessions out"""
+        if not hasattr(self, "_obo"):
+            self._obo = []
+            cur = set()
+            for o in self.ops:
+                w = o.split(" ")
+                if w[0] == "reset":
+                    cur = set()
+                if len(w) > 2 and w[2] in ("me", "fnd") and any(x.startswith("as=") for x in w[3:]):
+                    cur = cur | {w[1]}
+                self._obo.append(cur)
+        return self._obo[i] if i < len(self._obo) else set()
+
     def deleted_before(self, i):
         """the accounts deleted by requests before request i (account -> index of the request)"""
         return {u: k for k, (u, _) in sorted(self.deletions().items()) if k < i}
@@ -595,7 +610,7 @@ def mon_C03(case):
         if w[0] == "mepub" and ln.plain is None:
             # the own `me` topic takes no messages: refused with an error, nothing stored, nobody told
             pre = prev_state(case, i)
-            mine = [f for sid, f in ln.meframes if sid == w[1]]
+            mine = [f for sid, f in ln.meframes if sid == w[1]] + [f for sid, f in ln.frames if sid == w[1] and f == "ctrl 403 -"]
             if any(f.startswith("ctrl 2") for f in mine):
                 out.append((i, f"C03 publish to `me` from {w[1]} accepted ({mine[0]}) although a self topic takes no messages"))
             elif not mine or not mine[0].startswith("ctrl ") or int(mine[0].split(" ")[1]) < 400:
@@ -1075,7 +1090,8 @@ def mon_C09(case):
                     out.append((i, f"C09 relayed note names sender {k.get('from')} topic {f.split(' ')[1]} instead of {act[0]} {t}"))
             # … nor on `me`, where the note is relayed to the readers who are not attached to the topic
             for sid, f in ln.meframes:
-                if f.startswith("info me ") and frame_kv(f).get("what") == "kp" and frame_kv(f).get("from") == case.sess.get(sid, {}).get("user"):
+                if f.startswith("info me ") and frame_kv(f).get("what") == "kp" and frame_kv(f).get("from") == case.sess.get(sid, {}).get("user") \
+                        and sid not in case.obo_me_sids(i):
                     out.append((i, f"C09 typing note relayed on `me` to {sid}, a session of the typist"))
             # a mark moves only on a note from a reader or a publish by the user
         if w[0] not in ("note", "pub", "sub", "newgrp", "restart", "leave", "delsub", "deltopic", "setsub") and pre is not None:
@@ -1468,7 +1484,7 @@ def mon_C10_me(case):
         # (a)
         for sid, f in ln.meframes:
             fw = f.split(" ")
-            if fw[0] not in ("pres", "info"):
+            if fw[0] not in ("pres", "info") or sid in case.obo_me_sids(i):
                 continue
             u = case.sess.get(sid, {}).get("user")
             k = frame_kv(f)
@@ -1516,7 +1532,7 @@ def mon_C10_me(case):
                 out.append((i, f"C10 [me-info-unread] receipt `{what}` about {src} relayed on `me` to {sid} of {u} whose permissions {modes} lack read"))
         # (a') the list of contacts a user reads on `me` shows a contact online iff the contact table says so (and never without the
         # user's own presence permission on `me`)
-        if w[0] == "meget" and len(w) > 3 and w[3] == "sub":
+        if w[0] == "meget" and len(w) > 3 and w[3] == "sub" and w[1] not in case.obo_me_sids(i):
             u = case.sess.get(w[1], {}).get("user")
             m = ln.me.get(u)
             for sid, f in ln.meframes:
@@ -1657,7 +1673,9 @@ def mon_C13(case):
                            f"although nothing is queued anywhere - the connection's read loop waits here for ever, this and every later request of "
                            f"the session stay unanswered"))
             continue
-        if ln.plain is None and w[0] in ME_REQS and not any(s == w[1] and f.split(" ")[0] in ("ctrl", "meta") for s, f in ln.meframes):
+        # (`ctrl 403 -`: the session's `as=` is refused before the request reaches any topic)
+        if ln.plain is None and w[0] in ME_REQS and not any(s == w[1] and f.split(" ")[0] in ("ctrl", "meta") for s, f in ln.meframes) \
+                and not any(s == w[1] and f == "ctrl 403 -" for s, f in ln.frames):
             out.append((i, f"C13 request `{w[0][2:]}` on `me` from {w[1]} was not answered"))
             continue
         if ln.plain is None and w[0] in FND_REQS and not any(s == w[1] and f.split(" ")[0] in ("ctrl", "meta") for s, f in ln.frames):
